@@ -55,6 +55,160 @@ def count_calls_on_paths(ctx, func, pred):
     return exp, cfg
 
 
+ARGS_ = ("tuple", ("arg", "a0"))
+IN_TAGS, TS_ = ("arg", "incoming-tags"), ("arg", "supplied-timestamp")
+
+
+def _kw(**over):
+    base = {"test_id": ("arg", "tid"), "test_status": ("arg", "st"), "test_tags": IN_TAGS, "runnable": ("arg", "runnable"), "file_name": ("arg", "fn"),
+            "file_bytes": ("arg", "fb"), "eof": ("arg", "eof"), "mime_type": ("arg", "mime"), "route_code": ("arg", "rc"), "timestamp": TS_}
+    base.update(over)
+    return ("kwdict", tuple((k, v) for k, v in base.items() if v is not None))
+
+
+def check_copy_semantics(ctx):
+    """CopyStreamResult and its two field-owning subclasses, on abstract runs with two symbolic targets: every
+    target receives each call exactly once, in order, with the event unchanged except for the field the class owns."""
+    from .. import effects
+    classes = ctx.classes
+    for cname in ("CopyStreamResult", "StreamTagger", "TimestampingStreamResult"):
+        c = classes.get(REAL, cname)
+        for m in STREAM_METHODS:
+            owner, f = classes.resolve_method(c, m)
+            if not isinstance(f, FUNC_TYPES) or owner is None or owner.external:
+                raise AnalysisError(f"anchor vanished: {cname}.{m}")
+            scenarios = [("event", _kw())]
+            if m == "status" and cname == "TimestampingStreamResult":
+                scenarios = [("timestamp supplied", _kw()), ("timestamp=None", _kw(timestamp="None")), ("no timestamp", _kw(timestamp=None))]
+            if m == "status" and cname == "StreamTagger":
+                scenarios = [("tags supplied", _kw()), ("test_tags=None", _kw(test_tags="None")), ("no test_tags", _kw(test_tags=None))]
+            for sname, kw in scenarios:
+                dom = effects.EffectDomain(classes, attrs={"self.targets": ("tuple", ("wobj", "w0"), ("wobj", "w1")), "self.add": ("arg", "add"), "self.discard": ("arg", "discard"),
+                                                           "utc": ("utc",), "datetime.timezone.utc": ("utc",), "timezone.utc": ("utc",), "datetime.UTC": ("utc",)},
+                                           track=lambda d: d in ("datetime.datetime.now", "datetime.now"), results={"datetime.datetime.now": [("now",)], "datetime.now": [("now",)]})
+                argv = {}
+                if m == "status":
+                    argv = {(f.args.vararg.arg if f.args.vararg else "args"): ARGS_, (f.args.kwarg.arg if f.args.kwarg else "kwargs"): kw}
+                res = effects.run(ctx, dom, f, c, argv, depth=7)
+                problems = set()
+                seen_incoming = set()
+                sent_values = set()
+                if not any(r.kind == "val" for r in res):
+                    problems.add("no returning path")
+                for r in res:
+                    if r.kind != "val":
+                        continue
+                    sent = [e for e in effects.calls(r) if e[0] in (f"w0.{m}", f"w1.{m}")]
+                    if [e[0] for e in sent] != [f"w0.{m}", f"w1.{m}"]:
+                        problems.add(f"targets called: {[e[0] for e in sent]} (each target must get {m} exactly once, in order; a lazy map that nobody consumes calls no one)")
+                        continue
+                    if m != "status":
+                        continue
+                    for e in sent:
+                        if e[1] != ARGS_[1:]:
+                            problems.add("positional event arguments are not passed on unchanged")
+                        got = dict(e[2])
+                        want = dict(kw[1])
+                        owned = {"StreamTagger": "test_tags", "TimestampingStreamResult": "timestamp"}.get(cname)
+                        for k in set(got) | set(want):
+                            if k == owned:
+                                continue
+                            if got.get(k) != want.get(k):
+                                problems.add(f"event field {k} is {'dropped' if k not in got else 'changed or added'}")
+                        if cname == "TimestampingStreamResult":
+                            supplied = want.get("timestamp") not in (None, "None")
+                            nows = [x for x in effects.calls(r) if x[0] in ("datetime.datetime.now", "datetime.now")]
+                            if supplied and (got.get("timestamp") != TS_ or nows):
+                                problems.add("a supplied timestamp is not passed on untouched")
+                            if not supplied and (got.get("timestamp") != ("now",) or len(nows) != 1 or (("utc",) not in nows[0][1] and ("tz", ("utc",)) not in nows[0][2])):
+                                problems.add("a missing timestamp is not filled with datetime.now(<UTC>)")
+                        if cname == "StreamTagger":
+                            v = got.get("test_tags")
+                            src = want.get("test_tags")
+                            ok_empty = v == "None"
+                            ok_set = False
+                            if isinstance(v, tuple) and v[:1] == ("set",):
+                                e_ = v[1]
+                                ok_set = (e_[0] == "minus" and e_[2] == ("arg", "discard") and isinstance(e_[1], tuple) and e_[1][0] == "union" and e_[1][2] == ("arg", "add")
+                                          and isinstance(e_[1][1], tuple) and e_[1][1][0] in ("copy", "empty"))
+                                if ok_set and IN_TAGS in _flatten(e_[1][1]):
+                                    seen_incoming.add(True)
+                            sent_values.add("None" if ok_empty else "set")
+                            if not (ok_empty or ok_set):
+                                problems.add(f"outgoing test_tags is {v!r}: not (a copy of the incoming tags | add) - discard, or None when nothing remains")
+                if cname == "StreamTagger" and m == "status" and sname == "tags supplied" and not seen_incoming and not problems:
+                    problems.add("the incoming tags never reach the outgoing set")
+                if cname == "StreamTagger" and m == "status" and not problems and sent_values != {"None", "set"}:
+                    problems.add("an empty resulting tag set is not sent as None (consumers treat None as 'no tag information')" if "None" not in sent_values else "the computed tags are never sent")
+                name = f"{cname}.{m}" + (f" [{sname}]" if m == "status" and cname != "CopyStreamResult" else "")
+                rule = "R-OWNED-FIELD-GUARD" if (m == "status" and cname != "CopyStreamResult") else "R-FORWARD-ALL-TARGETS"
+                ctx.check(rule, f"{name}: every target gets the call once, in order" + (", event intact but for the owned field" if m == "status" else ""), f, not problems,
+                          "; ".join(sorted(problems)), examined=len(res), construct=f"{REAL}:{cname}.{m}::semantics {sname}")
+
+
+def _flatten(v):
+    out = [v]
+    if isinstance(v, tuple):
+        for x in v:
+            out.extend(_flatten(x))
+    return out
+
+
+def _merge_consts(v):
+    if not (isinstance(v, tuple) and v[:1] == ("concat",)):
+        return v
+    parts = []
+    for p_ in v[1:]:
+        if parts and isinstance(p_, tuple) and p_[:1] == ("const",) and isinstance(parts[-1], tuple) and parts[-1][:1] == ("const",):
+            parts[-1] = ("const", parts[-1][1] + p_[1])
+        else:
+            parts.append(p_)
+    return ("concat",) + tuple(parts) if len(parts) > 1 else parts[0]
+
+
+def check_queue_semantics(ctx, schema):
+    """StreamToQueue: one dict per call is put on the queue; status events carry every schema field unchanged except
+    route_code, which gets the queue's own code in front (alone when the event had none)."""
+    from .. import effects
+    classes = ctx.classes
+    sq_cls = classes.get(REAL, "StreamToQueue")
+    f = own_method(ctx, REAL, "StreamToQueue", "status")
+    for own in (("const", "own"),):   # a queue is always created with its routing code
+        for rc in (("arg", "rc"), "None"):
+            dom = effects.EffectDomain(classes, attrs={"self.routing_code": own, "self": ("self",)}, track=lambda d: d == "self.queue.put")
+            argv = {p_: ("arg", p_) for p_ in schema}
+            argv["route_code"] = rc
+            res = effects.run(ctx, dom, f, sq_cls, argv)
+            want_rc = rc if own == "None" else (own if rc == "None" else ("concat", ("const", "own/"), rc))
+            problems = set()
+            for r in res:
+                if r.kind != "val":
+                    problems.add(f"raises {r.value!r}")
+                    continue
+                puts = effects.calls(r, "self.queue.put")
+                if len(puts) != 1 or len(puts[0][1]) != 1 or not (isinstance(puts[0][1][0], tuple) and puts[0][1][0][:1] == ("kwdict",)):
+                    problems.add(f"{len(puts)} put() calls with a dict (exactly one expected)")
+                    continue
+                ev = dict(puts[0][1][0][1])
+                if ev.get("event") != ("const", "status") or set(ev) != set(schema) | {"event"}:
+                    problems.add(f"event dict keys {sorted(ev)}")
+                for fld in schema:
+                    got = _merge_consts(ev.get(fld))
+                    exp_ = want_rc if fld == "route_code" else ("arg", fld)
+                    if got != exp_:
+                        problems.add(f"field {fld} is sent as {got!r} (expected {exp_!r})")
+            label = f"queue code {'set' if own != 'None' else 'None'}, event route code {'given' if rc != 'None' else 'None'}"
+            ctx.check("R-FIELD-PASSTHROUGH", f"StreamToQueue.status [{label}]: one event with every field intact and the route code prefixed", f, bool(res) and not problems,
+                      "; ".join(sorted(problems)), construct=f"{REAL}:StreamToQueue.status::semantics {label}")
+    for m in ("startTestRun", "stopTestRun"):
+        fm = own_method(ctx, REAL, "StreamToQueue", m)
+        dom = effects.EffectDomain(classes, attrs={"self": ("self",)}, track=lambda d: d == "self.queue.put")
+        res = effects.run(ctx, dom, fm, sq_cls, {})
+        ok = bool(res) and all(r.kind == "val" and [e[1] for e in effects.calls(r, "self.queue.put")] == [(("kwdict", (("event", ("const", m)), ("result", ("self",)))),)] for r in res)
+        ctx.check("R-FIELD-PASSTHROUGH", f"StreamToQueue.{m} enqueues its event with result=self", fm, ok,
+                  f"StreamToQueue.{m} does not put exactly one {{event: {m!r}, result: self}}", construct=f"{REAL}:StreamToQueue.{m}::event")
+
+
 def run(ctx):
     ctx.rule("R-NO-PARAM-MUTATION", "no in-place mutation of objects received from the caller")
     ctx.rule("R-STRICT", "lazy iterators that perform forwarding are consumed")
@@ -95,35 +249,7 @@ def run(ctx):
     ctx.floor("R-NO-PARAM-MUTATION", 20, "StreamResult event methods")
 
     # ---------------------------------------------------------------- R-STRICT
-    sm = module_function(ctx, REAL, "_strict_map")
-    rets = [n for n in walk_shallow(sm, include_self=False) if isinstance(n, ast.Return)]
-    ok = False
-    for r in rets:
-        v = r.value
-        if isinstance(v, ast.Call) and dotted(v.func) in ("list", "tuple") and v.args:
-            inner = v.args[0]
-            if isinstance(inner, ast.Call) and dotted(inner.func) == "map" or isinstance(inner, (ast.GeneratorExp,)):
-                ok = True
-        if isinstance(v, ast.ListComp):
-            ok = True
-    loops = [n for n in walk_shallow(sm, include_self=False) if isinstance(n, ast.For)]
-    if loops and any(isinstance(c, ast.Call) for l in loops for c in walk_shallow(l)):
-        ok = True
-    ctx.check("R-STRICT", "_strict_map materialises the map", sm, ok,
-              "_strict_map returns a lazy iterator: no target would ever be called", construct=f"{REAL}:_strict_map::materialise")
-    ps = params(sm)
-    va_name = sm.args.vararg.arg if sm.args.vararg else None
-    starred_all = any(
-        isinstance(c, ast.Call) and dotted(c.func) in ("map", "zip")
-        and any(isinstance(x, ast.Starred) and dotted(x.value) == va_name for x in c.args)
-        for c in ast.walk(sm))
-    fn_used = any(
-        isinstance(c, ast.Call) and (dotted(c.func) == ps[0] or (dotted(c.func) == "map" and c.args and dotted(c.args[0]) == ps[0]))
-        for c in ast.walk(sm))
-    sliced = any(isinstance(x, ast.Subscript) and dotted(x.value) == va_name for x in ast.walk(sm))
-    uses_all = va_name is not None and starred_all and fn_used and not sliced
-    ctx.check("R-STRICT", "_strict_map applies the function to every element of the sequences", sm, uses_all,
-              "_strict_map no longer maps its function over the full sequences", construct=f"{REAL}:_strict_map::all-elements")
+    check_copy_semantics(ctx)
     # discarded lazy iterators anywhere in the stream classes (quick) / package (thorough)
     scope = [c.node for c in scls]
     if ctx.tier == "thorough":
@@ -145,42 +271,6 @@ def run(ctx):
 
     # ---------------------------------------------------------------- R-FORWARD-ALL-TARGETS
     copy = classes.get(REAL, "CopyStreamResult")
-    for m in STREAM_METHODS:
-        f = copy.methods.get(m)
-        if f is None:
-            raise AnalysisError(f"anchor vanished: CopyStreamResult.{m}")
-        ctx.analysed(f)
-        sites = []
-        for c in walk_shallow(f, include_self=False):
-            if isinstance(c, ast.Call) and dotted(c.func) == "_strict_map" and len(c.args) == 2:
-                mc, seq = c.args
-                if isinstance(mc, ast.Call) and dotted(mc.func) in ("methodcaller", "operator.methodcaller") and mc.args:
-                    sites.append((c, str_const(mc.args[0]), mc, seq))
-        loops = [n for n in walk_shallow(f, include_self=False) if isinstance(n, ast.For) and dotted(n.iter) == "self.targets"]
-        ok = False
-        msg = f"CopyStreamResult.{m} does not apply {m} to every element of self.targets exactly once"
-        if len(sites) == 1 and not loops:
-            c, name, mc, seq = sites[0]
-            ok = name == m and dotted(seq) == "self.targets"
-            if ok and m == "status":
-                va, kw = f.args.vararg, f.args.kwarg
-                ok = (va is not None and kw is not None
-                      and any(isinstance(a, ast.Starred) and dotted(a.value) == va.arg for a in mc.args[1:])
-                      and any(k.arg is None and dotted(k.value) == kw.arg for k in mc.keywords)
-                      and len(mc.args) == 2 and len(mc.keywords) == 1)
-                msg = "CopyStreamResult.status does not hand *args, **kwargs unchanged to every target"
-        elif len(loops) == 1 and not sites and isinstance(loops[0].target, ast.Name):
-            v = loops[0].target.id
-            calls = [c for c in walk_shallow(loops[0]) if isinstance(c, ast.Call) and dotted(c.func) == f"{v}.{m}"]
-            jumps = [x for x in walk_shallow(loops[0]) if isinstance(x, (ast.Break, ast.Continue, ast.Return, ast.If, ast.Try))]
-            ok = len(calls) == 1 and not jumps
-        ctx.check("R-FORWARD-ALL-TARGETS", f"CopyStreamResult.{m} reaches every target", f, ok, msg,
-                  construct=f"{REAL}:CopyStreamResult.{m}::all-targets")
-        # at most once on every path
-        exp, cfg = count_calls_on_paths(ctx, f, lambda c: dotted(c.func) == "_strict_map" or (isinstance(c.func, ast.Attribute) and c.func.attr == m and dotted(c.func.value) not in ("super()", "self")))
-        counts = exp.states_at(cfg.exit_return)
-        ctx.check("R-FORWARD-ALL-TARGETS", f"CopyStreamResult.{m} forwards exactly once per call", f, counts <= {1} and bool(counts) if not loops else True,
-                  f"forward count on returning paths: {sorted(counts)}", examined=exp.size, construct=f"{REAL}:CopyStreamResult.{m}::once")
     # subclasses reach the copying implementation through super() exactly once
     for c in sorted(classes.subclasses(copy, strict=True), key=lambda c: c.node.lineno):
         if c.module.name != REAL:
@@ -206,44 +296,6 @@ def run(ctx):
     ctx.floor("R-FORWARD-ALL-TARGETS", 12)
 
     # ---------------------------------------------------------------- R-FIELD-PASSTHROUGH
-    owned_field = {"StreamTagger": "test_tags", "TimestampingStreamResult": "timestamp"}
-    for cname, owned in owned_field.items():
-        f = own_method(ctx, REAL, cname, "status")
-        va, kw = f.args.vararg, f.args.kwarg
-        explicit = [a.arg for a in f.args.args[1:]]
-        ok_sig = va is not None and kw is not None and not explicit
-        ctx.check("R-FIELD-PASSTHROUGH", f"{cname}.status takes the event as *args, **kwargs", f, ok_sig,
-                  f"{cname}.status names parameters {explicit}: positional events would be re-ordered", construct=f"{REAL}:{cname}.status::signature")
-        if not ok_sig:
-            continue
-        fw = [c for c in walk_shallow(f, include_self=False) if isinstance(c, ast.Call) and dotted(c.func) == "super().status"]
-        ok = False
-        msg = f"{cname}.status does not forward *{va.arg} and **{kw.arg}"
-        extra_kw = []
-        if len(fw) == 1:
-            c = fw[0]
-            star = [a for a in c.args if isinstance(a, ast.Starred) and dotted(a.value) == va.arg]
-            dstar = [k for k in c.keywords if k.arg is None and dotted(k.value) == kw.arg]
-            extra_kw = [k for k in c.keywords if k.arg is not None]
-            plain = [a for a in c.args if not isinstance(a, ast.Starred)]
-            ok = len(star) == 1 and len(dstar) == 1 and not plain and all(k.arg == owned for k in extra_kw)
-            msg = f"{norm(c)[:80]} passes something other than *{va.arg}, **{kw.arg} and {owned}="
-        ctx.check("R-FIELD-PASSTHROUGH", f"{cname}.status forwards the untouched *args/**kwargs", fw[0] if fw else f, ok, msg,
-                  construct=f"{REAL}:{cname}.status::forward")
-        # keys of kwargs written / removed
-        touched = set()
-        for n in walk_shallow(f, include_self=False):
-            if isinstance(n, (ast.Assign, ast.AugAssign, ast.Delete)):
-                targets = n.targets if not isinstance(n, ast.AugAssign) else [n.target]
-                for t in targets:
-                    if isinstance(t, ast.Subscript) and dotted(t.value) == kw.arg:
-                        touched.add(str_const(t.slice) or norm(t.slice))
-                    if isinstance(t, ast.Name) and t.id in (kw.arg, va.arg):
-                        touched.add(f"<rebinds {t.id}>")
-            if isinstance(n, ast.Call) and isinstance(n.func, ast.Attribute) and dotted(n.func.value) == kw.arg and n.func.attr in ("pop", "update", "clear", "setdefault", "popitem", "__setitem__"):
-                touched.add(str_const(n.args[0]) if n.args and n.func.attr in ("pop", "setdefault") else f".{n.func.attr}()")
-        ctx.check("R-FIELD-PASSTHROUGH", f"{cname}.status touches only its own field ({owned})", f, touched <= {owned},
-                  f"{cname}.status rewrites/removes event fields {sorted(touched - {owned})}", construct=f"{REAL}:{cname}.status::owned-only")
     # StreamToQueue: explicit event dict
     sq = own_method(ctx, REAL, "StreamToQueue", "status")
     sq_params = [a.arg for a in sq.args.args[1:]]
@@ -252,109 +304,28 @@ def run(ctx):
     sq_defaults_ok = norm(sq.args) == norm(st.args) if st is not None else False
     ctx.check("R-FIELD-PASSTHROUGH", "StreamToQueue.status has the schema's defaults", sq, sq_defaults_ok,
               "defaults differ from StreamResult.status (an omitted field would change value)", construct=f"{REAL}:StreamToQueue.status::defaults")
-    ev = None
-    for c in walk_shallow(sq, include_self=False):
-        if isinstance(c, ast.Call) and dotted(c.func) == "dict" and any(k.arg == "event" for k in c.keywords):
-            ev = {k.arg: k.value for k in c.keywords}
-        if isinstance(c, ast.Dict) and any(str_const(k) == "event" for k in c.keys):
-            ev = {str_const(k): v for k, v in zip(c.keys, c.values)}
-    if ev is None:
-        raise AnalysisError("anchor vanished: StreamToQueue.status event dict")
-    for fld in schema:
-        v = ev.get(fld)
-        if fld == "route_code":
-            ok = isinstance(v, ast.Call) and dotted(v.func) == "self.route_code" and len(v.args) == 1 and dotted(v.args[0]) == "route_code"
-            msg = "route_code is not transformed by self.route_code(route_code) only"
-        else:
-            ok = v is not None and dotted(v) == fld
-            msg = f"event field {fld} is sent as {norm(v) if v is not None else '<missing>'}"
-        ctx.check("R-FIELD-PASSTHROUGH", f"StreamToQueue.status sends {fld}", v if v is not None else sq, ok, msg,
-                  construct=f"{REAL}:StreamToQueue.status::field {fld}")
-    ctx.check("R-FIELD-PASSTHROUGH", "StreamToQueue.status event kind", sq, str_const(ev.get("event")) == "status" and set(ev) == set(schema) | {"event"},
-              f"event dict keys {sorted(k for k in ev if k)}", construct=f"{REAL}:StreamToQueue.status::keys")
-    puts = [c for c in walk_shallow(sq, include_self=False) if isinstance(c, ast.Call) and dotted(c.func) == "self.queue.put"]
-    ctx.check("R-FIELD-PASSTHROUGH", "StreamToQueue.status enqueues exactly one event", sq, len(puts) == 1, f"{len(puts)} put() calls",
-              construct=f"{REAL}:StreamToQueue.status::one-put")
-    for m in ("startTestRun", "stopTestRun"):
-        f = own_method(ctx, REAL, "StreamToQueue", m)
-        puts = [c for c in walk_shallow(f, include_self=False) if isinstance(c, ast.Call) and dotted(c.func) == "self.queue.put"]
-        ok = False
-        if len(puts) == 1 and puts[0].args and isinstance(puts[0].args[0], ast.Call):
-            kws = {k.arg: k.value for k in puts[0].args[0].keywords}
-            ok = str_const(kws.get("event")) == m and dotted(kws.get("result")) == "self"
-        ctx.check("R-FIELD-PASSTHROUGH", f"StreamToQueue.{m} enqueues its event with result=self", f, ok,
-                  f"StreamToQueue.{m} does not put dict(event={m!r}, result=self)", construct=f"{REAL}:StreamToQueue.{m}::event")
+    check_queue_semantics(ctx, schema)
 
     # ---------------------------------------------------------------- R-OWNED-FIELD-GUARD
-    ts = own_method(ctx, REAL, "TimestampingStreamResult", "status")
-    fills = []
-    for n in walk_shallow(ts, include_self=False):
-        if isinstance(n, ast.Assign) and dotted(n.targets[0]) == "timestamp":
-            fills.append(n)
-    src = [n for n in fills if isinstance(n.value, ast.Call) and dotted(n.value.func) in ("kwargs.pop", "kwargs.get") and n.value.args and str_const(n.value.args[0]) == "timestamp"]
-    gen = [n for n in fills if n not in src]
-    ok = len(src) == 1 and len(gen) == 1
-    if ok:
-        g = gen[0]
-        p = getattr(g, "_parent", None)
-        ok = isinstance(p, ast.If) and g in p.body and norm(p.test) == "timestamp is None"
-    ctx.check("R-OWNED-FIELD-GUARD", "timestamp filled only when missing", ts, ok,
-              "the generated timestamp is not assigned exactly under `timestamp is None` (a supplied timestamp could be overwritten)",
-              construct=f"{REAL}:TimestampingStreamResult.status::only-when-none")
-    ok_now = bool(gen) and isinstance(gen[0].value, ast.Call) and dotted(gen[0].value.func) in ("datetime.datetime.now", "datetime.now") and (
-        (gen[0].value.args and dotted(gen[0].value.args[0]) in ("utc", "datetime.timezone.utc", "timezone.utc", "datetime.UTC"))
-        or any(k.arg == "tz" and dotted(k.value) in ("utc", "datetime.timezone.utc", "timezone.utc") for k in gen[0].value.keywords))
-    ctx.check("R-OWNED-FIELD-GUARD", "fill value is an aware UTC now", gen[0] if gen else ts, ok_now,
-              "the filled timestamp is not datetime.now(<UTC tzinfo>)", construct=f"{REAL}:TimestampingStreamResult.status::utc-now")
-    fwd = [c for c in walk_shallow(ts, include_self=False) if isinstance(c, ast.Call) and dotted(c.func) == "super().status"]
-    ok = len(fwd) == 1 and any(k.arg == "timestamp" and dotted(k.value) == "timestamp" for k in fwd[0].keywords)
-    ctx.check("R-OWNED-FIELD-GUARD", "timestamp forwarded", ts, ok, "the (supplied or filled) timestamp is not passed on", construct=f"{REAL}:TimestampingStreamResult.status::passes")
     # StreamFailFast
     ff = own_method(ctx, REAL, "StreamFailFast", "status")
-    calls = [c for c in walk_shallow(ff, include_self=False) if isinstance(c, ast.Call) and dotted(c.func) == "self.on_error"]
-    ok = False
-    trig = None
-    if len(calls) == 1:
-        p = getattr(getattr(calls[0], "_parent", None), "_parent", None)
-        if isinstance(p, ast.If) and isinstance(p.test, ast.Compare) and isinstance(p.test.ops[0], ast.In) and dotted(p.test.left) == "test_status":
-            comp = p.test.comparators[0]
-            if isinstance(comp, (ast.Tuple, ast.List, ast.Set)):
-                trig = {str_const(e) for e in comp.elts}
-                ok = trig == {"fail", "uxsuccess"} and not p.orelse
-    ctx.check("R-OWNED-FIELD-GUARD", "fail-fast callback fires for exactly {fail, uxsuccess}", ff, ok,
-              f"on_error is triggered by {sorted(trig) if trig else 'an unrecognised condition'}", construct=f"{REAL}:StreamFailFast.status::trigger")
+    from .. import effects
+    sff = classes.get(REAL, "StreamFailFast")
+    trig = set()
+    for status in ("exists", "inprogress", "xfail", "uxsuccess", "success", "fail", "skip", None):
+        dom_ = effects.EffectDomain(classes, track=lambda d: d == "self.on_error")
+        argv_ = {a_.arg: ("arg", a_.arg) for a_ in ff.args.args[1:]}
+        argv_["test_status"] = ("const", status) if status is not None else "None"
+        counts = {len(effects.calls(r, "self.on_error")) for r in effects.run(ctx, dom_, ff, sff, argv_) if r.kind == "val"}
+        if counts == {1}:
+            trig.add(status)
+        elif counts != {0}:
+            trig.add(f"?{status}:{sorted(counts)}")
+    ctx.check("R-OWNED-FIELD-GUARD", "fail-fast callback fires for exactly {fail, uxsuccess}", ff, trig == {"fail", "uxsuccess"},
+              f"on_error is triggered (once) by the statuses {sorted(map(str, trig))}", construct=f"{REAL}:StreamFailFast.status::trigger")
     ff_params = [a.arg for a in ff.args.args[1:]]
     ctx.check("R-OWNED-FIELD-GUARD", "StreamFailFast.status has the schema's parameters", ff, ff_params == schema, f"{ff_params}", construct=f"{REAL}:StreamFailFast.status::signature")
     # StreamTagger
-    tg = own_method(ctx, REAL, "StreamTagger", "status")
-    a = Aliases(tg)
-    out_name = None
-    store = None
-    for n in walk_shallow(tg, include_self=False):
-        if isinstance(n, ast.Assign) and isinstance(n.targets[0], ast.Subscript) and dotted(n.targets[0].value) == "kwargs" and str_const(n.targets[0].slice) == "test_tags":
-            store = n
-    ok = False
-    if store is not None and isinstance(store.value, ast.BoolOp) and isinstance(store.value.op, ast.Or) and len(store.value.values) == 2:
-        out_name = dotted(store.value.values[0])
-        ok = isinstance(store.value.values[1], ast.Constant) and store.value.values[1].value is None
-    ctx.check("R-OWNED-FIELD-GUARD", "tagger sends None when no tags remain", store if store is not None else tg, ok,
-              "outgoing test_tags is not `<set> or None`", construct=f"{REAL}:StreamTagger.status::none-when-empty")
-    seq = []
-    for n in tg.body:
-        for c in walk_shallow(n):
-            if isinstance(c, ast.Call) and isinstance(c.func, ast.Attribute) and dotted(c.func.value) == out_name and c.args:
-                seq.append((c.func.attr, dotted(c.args[0])))
-            if isinstance(c, ast.Assign) and dotted(c.targets[0]) == out_name and isinstance(c.value, ast.BinOp):
-                op = {ast.BitOr: "update", ast.Sub: "difference_update"}.get(type(c.value.op))
-                if op:
-                    seq.append((op, dotted(c.value.right)))
-            if isinstance(c, ast.AugAssign) and dotted(c.target) == out_name:
-                op = {ast.BitOr: "update", ast.Sub: "difference_update"}.get(type(c.op))
-                if op:
-                    seq.append((op, dotted(c.value)))
-    ok = seq == [("update", "self.add"), ("difference_update", "self.discard")]
-    ctx.check("R-OWNED-FIELD-GUARD", "tagger computes (incoming | add) - discard", tg, ok,
-              f"tag operations are {seq}", construct=f"{REAL}:StreamTagger.status::add-then-discard")
     init = own_method(ctx, REAL, "StreamTagger", "__init__")
     snap = {dotted(n.targets[0]): n.value for n in walk_shallow(init, include_self=False) if isinstance(n, ast.Assign)}
     ok = all(isinstance(snap.get(k), ast.Call) and dotted(snap[k].func) in ("frozenset", "set") for k in ("self.add", "self.discard"))
